@@ -25,6 +25,7 @@ CONSTANTS
   MaxApiFails,   \* bound on failing checkpoint API calls
   MaxInv,        \* bound on invocations
   ImmediateExt,  \* BOOLEAN: an invoke/callback may complete within the API call that starts it
+  WithPaging,    \* BOOLEAN: the history may be split so that the invocation payload holds at most the EXECUTION operation
   AmoReadyStart  \* BOOLEAN: TRUE = code as fixed (START recorded for a READY at-most-once attempt); FALSE = pinned original
 
 \* The program: a sequence of instruction records (see harness/progspec.py).  It is a *variable that never
@@ -48,12 +49,14 @@ VARIABLES
   pc, ph, nph, cur, att, err, rcmode, val,\* user thread
   crashes, apifails,                      \* budgets
   fnCount, obs, bad, known, midAmo,       \* monitors (history)
+  lg,                                     \* replay-aware logger: [rs, visited, comp (ops complete when the invocation began), small (first page <= 1 op)]
   last, nobs                              \* last observation (delivery / function entry) and their count (history; trace binding)
 
 vars == <<be, armed, chg, execRes, wake, inv, ist, outcome, loc, q, pfail, pc, ph, nph, cur, att, err, rcmode, val,
-          crashes, apifails, fnCount, obs, bad, known, midAmo, last, nobs>>
+          crashes, apifails, fnCount, obs, bad, known, midAmo, last, nobs, lg>>
 
-bevars == <<be, armed, chg, execRes, wake>>
+\* (lg is carried in bevars: like the backend variables it is left unchanged by almost every user-thread action)
+bevars == <<be, armed, chg, execRes, wake, lg>>
 monvars == <<fnCount, obs, bad, known, midAmo, last, nobs>>
 
 MaxAtt == 3
@@ -68,6 +71,7 @@ Init ==
   /\ obs = [i \in Instr |-> <<"none", 0>>]
   /\ bad = {} /\ known = {} /\ midAmo = FALSE
   /\ last = <<0, "none", 0>> /\ nobs = 0
+  /\ lg = [rs |-> "NEW", visited |-> {}, comp |-> {}, small |-> FALSE]
 
 \* the execution is over when an invocation reported a final status, or an execution-level result record was accepted
 ExecTerminal == outcome \in {"SUCCEEDED", "FAILED"} \/ execRes = "recorded"
@@ -114,7 +118,7 @@ FireTimer(i) ==
   /\ armed' = armed \ {i}
   /\ be' = [be EXCEPT ![i] = IF Prog[i].kind = "WAIT" THEN [@ EXCEPT !.st = "SUCCEEDED"] ELSE [@ EXCEPT !.st = "READY"]]
   /\ chg' = chg \cup {i} /\ wake' = TRUE
-  /\ UNCHANGED <<execRes, inv, ist, outcome, loc, q, pfail, pc, ph, nph, cur, att, err, rcmode, val, crashes, apifails>>
+  /\ UNCHANGED <<execRes, inv, ist, outcome, loc, q, pfail, pc, ph, nph, cur, att, err, rcmode, val, crashes, apifails, lg>>
   /\ UNCHANGED monvars
 
 \* the external party completes a callback / invoke
@@ -125,7 +129,7 @@ CompleteExt(i, o) ==
   /\ o \in ExtOutcomes(i) /\ InSeq(o, Prog[i].ext)
   /\ be' = [be EXCEPT ![i] = [st |-> o, att |-> 0, res |-> i, rc |-> FALSE]]
   /\ chg' = chg \cup {i} /\ wake' = TRUE
-  /\ UNCHANGED <<armed, execRes, inv, ist, outcome, loc, q, pfail, pc, ph, nph, cur, att, err, rcmode, val, crashes, apifails>>
+  /\ UNCHANGED <<armed, execRes, inv, ist, outcome, loc, q, pfail, pc, ph, nph, cur, att, err, rcmode, val, crashes, apifails, lg>>
   /\ UNCHANGED monvars
 
 ---------------------------------------------------------------------------
@@ -138,6 +142,10 @@ StartInvocation ==
   /\ loc' = be /\ q' = <<>> /\ pfail' = "no"
   /\ pc' = 1 /\ ph' = "Check" /\ nph' = "Check" /\ cur' = Absent /\ att' = 0 /\ err' = NoErr /\ rcmode' = {} /\ val' = 0
   /\ midAmo' = FALSE
+  \* replay status is decided from the FIRST page only: REPLAY iff it holds more than the EXECUTION operation (faithful)
+  /\ \E small \in (IF WithPaging THEN BOOLEAN ELSE {FALSE}) :
+       lg' = [rs |-> IF (\E i \in OpIdx : be[i].st # "ABSENT") /\ ~small THEN "REPLAY" ELSE "NEW",
+              visited |-> {}, comp |-> {i \in OpIdx : be[i].st \in TERMINAL}, small |-> small]
   /\ UNCHANGED <<be, armed, execRes, outcome, crashes, apifails, fnCount, obs, bad, known, last, nobs>>
 
 EndWith(o) ==
@@ -171,7 +179,7 @@ Flush(k) ==
           /\ bad' = bad \cup (IF AllLegal(be, us) THEN {} ELSE {"C11-illegal"})
                         \cup (IF execRes # "none" THEN {"C11-after-exec-result"} ELSE {})
   /\ q' = SubSeq(q, k + 1, Len(q))
-  /\ UNCHANGED <<wake, inv, ist, outcome, pfail, pc, ph, nph, cur, att, err, rcmode, val, crashes, apifails, fnCount, obs, known, midAmo, last, nobs>>
+  /\ UNCHANGED <<wake, inv, ist, outcome, pfail, pc, ph, nph, cur, att, err, rcmode, val, crashes, apifails, fnCount, obs, known, midAmo, last, nobs, lg>>
 
 \* the API call fails: every queued update is dropped, waiters get BackgroundThreadError, no further call
 FlushFail(cls) ==
@@ -211,7 +219,7 @@ ObsSet(i, o) == obs' = [obs EXCEPT ![i] = IF @[1] = "none" THEN o ELSE @]
 DeliverVal(i, v, xbad) ==
   /\ ObsSet(i, <<"val", v>>)
   /\ bad' = bad \cup Div(i, <<"val", v>>) \cup xbad
-  /\ pc' = NextOf(i) /\ ph' = "Check" /\ nph' = nph
+  /\ pc' = pc /\ ph' = "Track" /\ nph' = nph       \* the operation returned normally: context.py calls state.track_replay next
   /\ Note(i, "val", v)
   /\ UNCHANGED <<q, cur, att, err, rcmode, val, fnCount, known, midAmo>>
 
@@ -468,7 +476,7 @@ ChildEnd ==
          THEN \* ReplayChildren: return the recomputed value without another checkpoint
               /\ rcmode' = rcmode \ {b}
               /\ ObsSet(b, <<"val", b>>) /\ bad' = bad \cup Div(b, <<"val", b>>)
-              /\ pc' = pc + 1 /\ ph' = "Check"
+              /\ pc' = pc /\ ph' = "Track"
               /\ Note(b, "val", b)
               /\ UNCHANGED <<q, nph, cur, att, err, val, fnCount, known, midAmo>> /\ UserUnch
          ELSE /\ Enq(Upd(b, "SUCCEED", TRUE, b, Prog[b].large), "Done")
@@ -479,7 +487,7 @@ ChildDone ==
   /\ LET b == I.begin IN
      /\ ObsSet(b, <<"val", b>>)
      /\ bad' = bad \cup Div(b, <<"val", b>>) \cup (IF be[b].st = "SUCCEEDED" THEN {} ELSE {"C03-unrecorded"})
-     /\ pc' = pc + 1 /\ ph' = "Check"
+     /\ pc' = pc /\ ph' = "Track"
      /\ Note(b, "val", b)
   /\ UNCHANGED <<q, nph, cur, att, err, rcmode, val, fnCount, known, midAmo>> /\ UserUnch
 
@@ -503,6 +511,50 @@ ChildReraise ==
           ELSE pc' = HandlerOf(b) /\ ph' = "Unwind" /\ err' = e
      /\ Note(b, e.cls, e.sym)
   /\ UNCHANGED <<q, nph, cur, att, val, fnCount, known, midAmo>> /\ UserUnch
+
+---------------------------------------------------------------------------
+\* Replay tracking and the replay-aware logger (state.py track_replay, logger.py)
+
+TrackedOp == IF I.kind = "CHILD_END" THEN I.begin ELSE IF I.kind = "CBRESULT" THEN 0 ELSE pc
+CompletedNow == {i \in OpIdx : loc[i].st \in TERMINAL}
+
+\* state.track_replay(op): called by context.py after an operation RETURNED (not when it raised, not when it suspended)
+Track ==
+  /\ ist = "Running" /\ ph = "Track"
+  /\ LET o == TrackedOp
+         v2 == IF o = 0 \/ lg.rs # "REPLAY" THEN lg.visited ELSE lg.visited \cup {o}
+     IN lg' = [lg EXCEPT !.visited = v2,
+                         !.rs = IF o # 0 /\ lg.rs = "REPLAY" /\ CompletedNow \subseteq v2 THEN "NEW" ELSE lg.rs]
+  /\ pc' = (IF I.kind = "CHILD_END" THEN pc + 1 ELSE NextOf(pc)) /\ ph' = "Check"
+  /\ UNCHANGED <<be, armed, chg, execRes, wake, inv, ist, outcome, loc, q, pfail, nph, cur, att, err, rcmode, val, crashes, apifails>>
+  /\ UNCHANGED monvars
+
+\* is instruction j (an operation) inside a context that is short-circuited / completed in the local view?
+NestedInCompleted(j) == Prog[j].parent # 0 /\ loc[Prog[j].parent].st \in TERMINAL
+
+\* a context.logger call between operations: emitted iff the execution state is not replaying
+LogStep ==
+  /\ Running("LOG", "Check")
+  /\ LET emitted == lg.rs = "NEW"
+         expected == ~(\E i \in lg.comp : i > pc)          \* no operation completed before this invocation began lies ahead
+         unvisited == {i \in CompletedNow : i \notin lg.visited}
+         cause == IF expected /\ ~emitted
+                    THEN (IF \E i \in unvisited : NestedInCompleted(i) THEN {<<"log-silent-nested-completed", pc>>}
+                          ELSE IF \E i \in unvisited : loc[i].st # "SUCCEEDED" \/ obs[i][1] \notin {"val", "none"}
+                                 THEN {<<"log-silent-after-failure", pc>>}
+                          \* nothing completed is unvisited, but REPLAY is only left inside track_replay, i.e. after the first
+                          \* operation of the invocation returned: log calls before that are suppressed
+                          ELSE IF unvisited = {} THEN {<<"log-silent-until-first-return", pc>>}
+                          ELSE {})
+                    ELSE IF ~expected /\ emitted
+                      THEN (IF lg.small THEN {<<"log-first-page", pc>>} ELSE {})
+                      ELSE {}
+     IN /\ known' = known \cup cause
+        /\ bad' = bad \cup (IF expected /\ ~emitted /\ cause = {} THEN {"C17-missing"} ELSE {})
+                      \cup (IF ~expected /\ emitted /\ cause = {} THEN {"C17-duplicate"} ELSE {})
+        /\ last' = <<pc, IF emitted THEN "log" ELSE "nolog", 0>> /\ nobs' = nobs + 1
+  /\ pc' = pc + 1 /\ ph' = "Check"
+  /\ UNCHANGED <<q, nph, cur, att, err, rcmode, val, fnCount, obs, midAmo>> /\ UserUnch
 
 ---------------------------------------------------------------------------
 \* Handler end (execution.py wrapper)
@@ -536,7 +588,7 @@ UserStep == StepCheck \/ StepRecheck \/ StepFnEnter \/ StepFnExit \/ StepDone \/
             \/ WfcCheck \/ WfcPollEnter \/ WfcPollExit \/ WfcDone \/ WfcRaiseOrig
             \/ ChildBegin \/ ChildEnter \/ ChildEnd \/ ChildDone \/ ChildUnwind \/ ChildReraise
             \/ HandlerReturn \/ HandlerLargeDone \/ HandlerRaise
-            \/ Resume \/ PostPut \/ BteEnd
+            \/ Track \/ LogStep \/ Resume \/ PostPut \/ BteEnd
 
 EnvStep == (\E i \in OpIdx : FireTimer(i)) \/ (\E i \in OpIdx, o \in TERMINAL : CompleteExt(i, o))
 PipeStep == (\E k \in 1..Len(q) : Flush(k)) \/ (\E c \in {"retriable", "fatal"} : FlushFail(c))
@@ -568,6 +620,7 @@ C11_ValidHistory == bad \cap {"C11-illegal", "C11-after-exec-result"} = {}
 C12_StrategyArg == "C12-strategy-arg" \notin bad
 C13_StateThreading == "C13-state-threading" \notin bad
 C16_LargeFinal == "C16-final-not-recorded" \notin bad
+C17_LoggerExact == bad \cap {"C17-missing", "C17-duplicate"} = {}
 
 \* retries are bounded by the strategy: never more RETRY records than maxAtt - 1
 C12_RetryBound == \A i \in OpIdx : Prog[i].kind = "STEP" => be[i].att <= Prog[i].maxAtt - 1
